@@ -22,7 +22,7 @@ Definition prim_parent (n : string) : option string :=
   else if mem n ["url"; "canonical"; "uuid"; "oid"]%string then Some "uri"%string
   else None.
 Definition quantity_specialisations : list string := ["Duration"; "MoneyQuantity"; "Age"; "Count"; "Distance"; "SimpleQuantity"]%string.
-Definition backbone_datatypes : list string := ["Timing"; "Dosage"; "ElementDefinition"]%string.
+Definition backbone_datatypes : list string := ["Timing"; "Dosage"; "ElementDefinition"; "MarketingStatus"; "Population"; "ProdCharacteristic"; "ProductShelfLife"; "SubstanceAmount"]%string.
 Definition non_domain_resources : list string := ["Bundle"; "Binary"; "Parameters"]%string.
 Definition system_names : list string := ["String"; "Boolean"; "Integer"; "Decimal"; "Date"; "Time"; "DateTime"; "Quantity"; "Any"]%string.
 
@@ -89,4 +89,5 @@ Definition parent_special : list (string * string) :=
    ("url", "uri"); ("canonical", "uri"); ("uuid", "uri"); ("oid", "uri");
    ("Duration", "Quantity"); ("MoneyQuantity", "Quantity"); ("Age", "Quantity"); ("Count", "Quantity"); ("Distance", "Quantity"); ("SimpleQuantity", "Quantity");
    ("Timing", "BackboneElement"); ("Dosage", "BackboneElement"); ("ElementDefinition", "BackboneElement");
+   ("MarketingStatus", "BackboneElement"); ("Population", "BackboneElement"); ("ProdCharacteristic", "BackboneElement"); ("ProductShelfLife", "BackboneElement"); ("SubstanceAmount", "BackboneElement");
    ("Bundle", "Resource"); ("Binary", "Resource"); ("Parameters", "Resource"); ("DomainResource", "Resource")]%string.
